@@ -291,7 +291,7 @@ fn handle_rx_contract<const MAX_FRAME: usize>(ignore_mac: bool, all_regions: boo
     kani::cover!(true, "verif-reached: accepted");
 }
 
-// @verif props=C05,C06,C07,C12,C04 obligation=Session::handle_rx.contract[ClassA] label=bounded(frame<=16B,EU868) tier=quick bound="frame length <= 16 bytes, region EU868 (region only matters on the oversize path); all byte values, lengths, session states symbolic"
+// @verif props=C05,C06,C07,C12,C04,C08 obligation=Session::handle_rx.contract[ClassA] label=bounded(frame<=16B,EU868) tier=quick bound="frame length <= 16 bytes, region EU868 (region only matters on the oversize path); all byte values, lengths, session states symbolic"
 #[kani::proof]
 #[kani::stub(lorawan::default_crypto::DefaultCrypto::new, stub_crypto_new)]
 #[kani::stub(<lorawan::default_crypto::DefaultCrypto as lorawan::keys::Crypto>::calculate_mic, stub_calculate_mic)]
@@ -300,7 +300,7 @@ fn handle_rx_contract<const MAX_FRAME: usize>(ignore_mac: bool, all_regions: boo
 #[kani::unwind(20)]
 fn c05_handle_rx_class_a_q() { handle_rx_contract::<16>(false, false) }
 
-// @verif props=C05,C06,C07,C12,C04 obligation=Session::handle_rx.contract[ClassC] label=bounded(frame<=16B,EU868) tier=quick bound="frame length <= 16 bytes, region EU868"
+// @verif props=C05,C06,C07,C12,C04,C08 obligation=Session::handle_rx.contract[ClassC] label=bounded(frame<=16B,EU868) tier=quick bound="frame length <= 16 bytes, region EU868"
 #[kani::proof]
 #[kani::stub(lorawan::default_crypto::DefaultCrypto::new, stub_crypto_new)]
 #[kani::stub(<lorawan::default_crypto::DefaultCrypto as lorawan::keys::Crypto>::calculate_mic, stub_calculate_mic)]
@@ -309,7 +309,7 @@ fn c05_handle_rx_class_a_q() { handle_rx_contract::<16>(false, false) }
 #[kani::unwind(20)]
 fn c05_handle_rx_class_c_q() { handle_rx_contract::<16>(true, false) }
 
-// @verif props=C05,C06,C07,C12,C04 obligation=Session::handle_rx.contract[ClassA,30B] label=bounded(frame<=30B) tier=thorough bound="frame length <= 30 bytes (two AES-CTR blocks, FOpts up to 15), all 9 regions"
+// @verif props=C05,C06,C07,C12,C04,C08 obligation=Session::handle_rx.contract[ClassA,30B] label=bounded(frame<=30B) tier=thorough bound="frame length <= 30 bytes (two AES-CTR blocks, FOpts up to 15), all 9 regions"
 #[kani::proof]
 #[kani::stub(lorawan::default_crypto::DefaultCrypto::new, stub_crypto_new)]
 #[kani::stub(<lorawan::default_crypto::DefaultCrypto as lorawan::keys::Crypto>::calculate_mic, stub_calculate_mic)]
@@ -318,7 +318,7 @@ fn c05_handle_rx_class_c_q() { handle_rx_contract::<16>(true, false) }
 #[kani::unwind(34)]
 fn c05_handle_rx_class_a_t() { handle_rx_contract::<30>(false, true) }
 
-// @verif props=C05,C06,C07,C12,C04 obligation=Session::handle_rx.contract[ClassC,30B] label=bounded(frame<=30B) tier=thorough bound="frame length <= 30 bytes, all 9 regions"
+// @verif props=C05,C06,C07,C12,C04,C08 obligation=Session::handle_rx.contract[ClassC,30B] label=bounded(frame<=30B) tier=thorough bound="frame length <= 30 bytes, all 9 regions"
 #[kani::proof]
 #[kani::stub(lorawan::default_crypto::DefaultCrypto::new, stub_crypto_new)]
 #[kani::stub(<lorawan::default_crypto::DefaultCrypto as lorawan::keys::Crypto>::calculate_mic, stub_calculate_mic)]
